@@ -162,6 +162,22 @@ def curve(rng, n=None, family=None, nmax=80, nmin=2):
     return np.ascontiguousarray(pts), {'family': fam, 'xpat': pat}
 
 
+def large_int_curve(rng, n=None, nmax=60):
+    """Integral coordinates of magnitude 1e9..1e10 (bytes, microseconds, counters), to be presented as int64:
+    individual values and differences are exact, but products of two differences exceed 2**63."""
+    n = n or int(rng.integers(5, nmax + 1))
+    x = np.cumsum(rng.integers(1, 9, n)).astype(float) * float(10 ** int(rng.integers(8, 10)))
+    kind = int(rng.integers(0, 3))
+    if kind == 0:
+        y = np.sort(rng.integers(0, 10 ** 4, n))[::-1].astype(float)
+    elif kind == 1:
+        y = np.round(1e4 / (np.arange(n) + 1.0))
+    else:
+        y = rng.integers(0, 10 ** 4, n).astype(float)
+    y = y * float(10 ** int(rng.integers(5, 7)))
+    return np.ascontiguousarray(np.column_stack((x, y)))
+
+
 LAYOUTS = ['C', 'F', 'view', 'i64']
 
 
